@@ -11,6 +11,7 @@ type propDef struct {
 	CrashIsViolation bool
 	Params           func(tier string) string
 	Budget           [2]int // seconds: quick, thorough (0 = default)
+	Stages           []stage
 	Custom           func(def *propDef, tier string, seed int) int
 	CustomReplay     func(def *propDef, file string) int
 }
@@ -191,5 +192,18 @@ func init() {
 		ID: "C17", Check: "helptext", Level: "exploration",
 		Rule: "every single-item declaration over the full variant product (option name lists, environment lists, the seven types with zero / non-zero default, HideValue, empty / one-line / three-line descriptions; arguments alike; sub-commands with 1-3 aliases, Hidden, LongDesc) and every declaration set of <= 2 arguments + <= 2 options + <= 2 sub-commands over 6 variants per item, each at depth 0 and 1, short help (printed on a rejected invocation) and long help (--help); an environment variable named by an item is SET while the application is declared; the captured text is compared, after whitespace normalisation, with the ordered rows of a reference renderer (usage line with path, spec or the synthesised spec, COMMAND marker; description or long description; Arguments; Options with first short and first long name; non-hidden Commands with all aliases; env lists; declared defaults unless hidden), and hidden aliases must not occur anywhere; non-trivial = declarations with at least two items",
 		Assumptions: []string{"how each built-in type prints its default (\"dflt\" quoted, [7, 8], 0 for a zero int/float, nothing for false / empty) is taken from the repository's golden help files"},
+	})
+}
+
+func init() {
+	addProp(&propDef{
+		ID: "C20", Check: "indep", Level: "model_checking", HangSecs: 60,
+		Stages: []stage{
+			{Name: "hist", Build: "plain", Params: "mode=hist"},
+			{Name: "sched", Build: "instr", Params: "mode=sched"},
+			{Name: "race", Build: "race", Params: "mode=race", Shards: 1, Env: []string{"GOMAXPROCS=16"}},
+		},
+		Rule: "(a) histories: every ordered sequence of <= 3 of 9 application templates (chosen to collide: same spec text with different declarations, same option names, the same environment variable read with different values, a rejection, a help request under ExitOnError, hooks with Exit, nested repetitions, implicit spec) is built-and-run in one fresh process and every outcome compared with the template's outcome alone in a fresh process; (b) interleavings: the library sources are instrumented (overlay) with a scheduling point at every function entry, every loop head and before/after every statement mentioning a package-level variable; 2 (thorough: 3) templates run as cooperative threads; all schedules up to the preemption bound are enumerated depth-first (dense pass: every point; focused pass: tagged points only, higher bound), every execution on fresh objects; oracle per execution: each thread ends exactly as it does alone under the same instrumentation, and no package-level variable is written by one thread and touched by another (conflict monitor); states = scheduling points visited, transitions = executions (schedules) run; traces validated = schedules executed on the real code (all of them); (c) the same bodies free-running in 16 goroutines under -race; non-trivial = executions with at least one preemption, histories of length >= 2",
+		Assumptions: []string{"interleavings are explored at the granularity of the inserted scheduling points; Go memory-model effects below that granularity are left to the free-running -race pass, which is not exhaustive", "a report of the race detector is taken as proof (no confirmation replay)", "concurrent applications share the package-level output stream by design: outputs are compared in histories only"},
 	})
 }
